@@ -1066,6 +1066,7 @@ theorem dynamic_refines (s : ElfStream) (f : ElfBytes) (c : Array UInt8) (hs : S
   | none =>
     have hnil := hs.sh.none_nil hsh
     simp only [hsh] at h
+    unfold ElfBytes.dynamicFromSegments at h
     simp only [hnil, List.isEmpty_nil, Bool.not_true, Bool.false_eq_true, if_false] at hsim ⊢
     cases hph : f.phdrs with
     | none =>
